@@ -148,8 +148,11 @@ class PubSubRun:
             self.res.probes["pre_handshake_frames"] += 1
             self.t(f"{a.name} subscribes before connecting")
         a.host_id = ch.weighted("con.host", [(8, 0), (1, 1), (1, 5), (1, 7), (1, -1), (1, 32767)])
+        hs = None
+        if proto != "v1" and ch.flag("con.hdr_src", 1, 8):
+            hs = ch.choose("con.hdr_src.v", [0, 9, 90])     # the CONNECT_V2 request is in the payload, not the header
         a.handshake(proto, req_id=rid, logger=logger, allow_multiple=multi, name=nm,
-                    pid=5000 + len(self.actors))
+                    pid=5000 + len(self.actors), hdr_src=hs)
         self.t(f"{a.name} connect proto={proto} id={rid} logger={logger} multi={multi} name={nm!r}")
 
     def pick_type(self, label):
